@@ -291,6 +291,17 @@ class APIConnection:
         self._set_start_connect_future()
         self._set_finish_connect_future()
 
+        self._release_resources()
+
+        if (on_stop := self.on_stop) is not None and was_connected:
+            self.on_stop = None
+            on_stop(self._expected_disconnect)
+
+    def _release_resources(self) -> None:
+        """Close the frame helper and the socket and cancel the keep alive timers.
+
+        Safe to call multiple times.
+        """
         if self._frame_helper is not None:
             self._frame_helper.close()
             self._frame_helper = None
@@ -305,9 +316,18 @@ class APIConnection:
             self._ping_timer.cancel()
             self._ping_timer = None
 
-        if (on_stop := self.on_stop) is not None and was_connected:
-            self.on_stop = None
-            on_stop(self._expected_disconnect)
+    def _raise_if_closed(self) -> None:
+        """Raise if the connection was closed while a connect phase was completing.
+
+        If the close takes effect in the same event loop iteration that
+        completes the last await of a connect phase, the connecting task
+        is already scheduled to resume and the interrupt cannot cancel it
+        anymore. The close must win: never leave the closed state, and
+        release anything that was acquired after _cleanup already ran.
+        """
+        if self.connection_state is CONNECTION_STATE_CLOSED:
+            self._release_resources()
+            raise ConnectionInterruptedError
 
     def set_debug(self, enable: bool) -> None:
         """Enable or disable debug logging."""
@@ -466,6 +486,7 @@ class APIConnection:
             raise HandshakeAPIError(f"Handshake failed: {err}") from err
         finally:
             handshake_handle.cancel()
+        self._raise_if_closed()
         self._set_connection_state(CONNECTION_STATE_HANDSHAKE_COMPLETE)
 
     async def _connect_hello_login(self, login: bool) -> None:
@@ -607,6 +628,7 @@ class APIConnection:
                 self._start_connect_future, ConnectionInterruptedError, None
             ):
                 await self._do_connect()
+            self._raise_if_closed()
         except (Exception, CancelledError) as ex:
             # If the task was cancelled, we need to clean up the connection
             # and raise the CancelledError as APIConnectionError
@@ -674,6 +696,7 @@ class APIConnection:
                 self._finish_connect_future, ConnectionInterruptedError, None
             ):
                 await self._do_finish_connect(login)
+            self._raise_if_closed()
         except (Exception, CancelledError) as ex:
             # If the task was cancelled, we need to clean up the connection
             # and raise the CancelledError as APIConnectionError
